@@ -594,6 +594,9 @@ class RZILTransformer(Transformer):
                 Branch("branch", cond=items[0], then=Empty(""), otherwise=hybrid.stmt)
             )
 
+        # Both arms are converted with the usual arithmetic conversions (C11 6.5.15p5).
+        then_p = self.promotion_cast(then_p)
+        else_p = self.promotion_cast(else_p)
         then_p, else_p = self.cast_operands(a=then_p, b=else_p, immutable_a=False)
         return self.add_op(Ternary(f"cond", items[0], then_p, else_p))
 
